@@ -126,3 +126,6 @@ Proof.
   - intros [|a] [|b]; simpl; congruence.
   - intros [|a]; simpl; congruence.
 Qed.
+
+Lemma fops_null_unique : forall x, is_null fops x = true -> x = null fops.
+Proof. intros [|a]; simpl; congruence. Qed.
